@@ -52,9 +52,16 @@ P20 == \A i \in 1..Len(Ev.vars) : Ev.vars[i] = Ev.mainans
 \* C05 (single-step part): first (miss) and second (hit) answers through the cache equal the uncached answer
 P05 == Ev.hasfirst => (Ev.firstans = Ev.freshans /\ Ev.mainans = Ev.freshans)
 
+\* C13: context boosts never add or remove a candidate; a command containing a boosted word never scores lower,
+\* one that contains none scores exactly the same (compared at a limit >= database size)
+P13 == Ev.hasnob =>
+          /\ DocsOf(Ev.main) = DocsOf(Ev.nob)
+          /\ \A i \in 1..Len(Ev.bcmp) : IF Ev.bcmp[i][2] = 1 THEN Ev.bcmp[i][3] \in {0, 1} ELSE Ev.bcmp[i][3] = 0
+
 TCase == Ev.op = "case"
     /\ ("C01" \in Check => P01) /\ ("C04" \in Check => P04) /\ ("C07" \in Check => P07)
     /\ ("C02" \in Check => P02) /\ ("C20" \in Check => P20) /\ ("C05" \in Check => P05)
+    /\ ("C13" \in Check => P13)
 
 TraceInit == l = 1
 TraceNext == l <= Len(Trace) /\ l' = l + 1 /\ TCase
